@@ -45,6 +45,8 @@ pub fn fresh_dir() -> String {
 fn scenario_for(prop: &str) -> &'static str {
 	match prop {
 		"C05" => "vis",
+		"C04" => "iter",
+		"C16" => "ioerr",
 		"C15" => "live",
 		"C18" => "lock",
 		"C03" => "drop",
@@ -95,6 +97,8 @@ fn classify(msg: &str) -> (&'static str, String) {
 		let class = it.next().unwrap_or("").trim_end_matches(':').to_string();
 		let prop: &'static str = match prop {
 			"C03" => "C03",
+			"C04" => "C04",
+			"C16" => "C16",
 			"C05" => "C05",
 			"C12" => "C12",
 			"C11" => "C11",
